@@ -6,7 +6,6 @@ import os
 VERIF = os.path.dirname(os.path.dirname(os.path.abspath(__file__)))
 
 NA = {
-    "C20": "Round-trip equality of eval(pprint(x)) is a statement about repr of run-time values (quoting, inf, 1-tuples); it has no structural clause decidable without executing the printer (DESIGN.md §4).",
 }
 
 # property -> (claim text, level note, technique)
@@ -25,6 +24,10 @@ claim("C07",
       "Bounded decision of C07's rebinding step and change filter: Parameters._watch_group, _resolve_dynamic_deps, _m_caller, _sync_caller and _skip_event are interpreted together for every ordered list of 1..3 dependencies out of sub.x / sub.y / sub.x:bounds / sub.subsub.z / sub.param, every watcher installed for them and every event it can receive (the sub-object replaced by one equal in all values, or differing in exactly one value, bounds or the attached grandchild; the grandchild replaced; a leaf assigned): the method runs iff a value reached through one of the dependencies sharing that watcher changed, and an intermediate replacement tells the parent to re-resolve; Parameters._update_deps(attribute) removes every recorded dynamic watcher from the object it was installed on exactly once and installs and records new ones on the attached object; Parameter.__set__ re-resolves after the store and before dispatch.",
       "Bounded: paths of depth <= 2 below the root, lists of <= 3 dependencies, one replacement per level (longer histories follow by induction because each rebinding starts from the recorded watchers, which are shown to be exactly the installed ones). Not decided: the resolution of a path to objects (_spec_to_obj, taken as every intermediate parameter followed by the leaves), paths that stop resolving, async dependent methods, that a watcher fires once per batch (C05).",
       "static analysis: finite-domain abstract interpretation of the watcher-construction and event-filter functions against a specification written from the property; syntactic ordering facts in Parameter.__set__")
+claim("C20",
+      "Partial decision of C20, limited to what lives in the shape of the value printers: container_script_repr is interpreted for lists and tuples of 0..3 elements and the emitted text is parsed with Python's own grammar (ast.parse: the printed program is analysed, not run) -- it must be a display of the same kind with the same elements in order (a one-element tuple needs its trailing comma), each element printed through pprint with the caller's imports list; a printer is registered for float and, interpreted on a finite float, inf, -inf and nan, emits a constant expression denoting the same float.",
+      "Partial. Not decided: that repr() of strings and other leaf values evaluates back to an equal value (Python's repr); the constructor-signature-driven printer of a Parameterized object (Parameters.pprint / _pprint: argument order, default suppression, nested objects); containers without a registered printer (dict, set), which are printed with repr. The first design declared C20 not applicable; the two rules exist because reading found the 1-tuple defect, and a printer's output can be checked against the grammar without running anything.",
+      "static analysis: finite-domain abstract interpretation of the value printers; the emitted text is checked by parsing it (ast.parse) and evaluating constant expressions symbolically")
 claim("C11",
       "Bounded decision of C11: ParameterizedMetaclass.__param_inheritance is interpreted abstractly on a new class below a parent (that re-declares the Parameter or skips it) and a grandparent, for every subset of default / bounds / doc / label declared anew x Parameter type changed or not x an ancestor with instantiate=True x the validator's verdict x a default that is a value / None / falsy: per slot the nearest declaring ancestor wins (else the type's default, callable defaults called with the Parameter), inherited containers are copied, instantiate is inherited, the merged default is validated whenever the type changed or a validated slot was declared anew with a non-None merged default, and creation fails iff it is rejected; both routes the property names (class creation, add_parameter, and a Parameter assigned at class level) reach that function.",
       "Bounded: hierarchies of depth three with a skipped level; deeper chains and multiple-inheritance merges run the same loop but are not enumerated. That allow_None is recomputed from the class's own declaration (Parameter.__init__ of each type) and the correctness of the validators themselves (C01) are not decided here. Assumes ancestors were created earlier, so their Parameter objects have every slot filled.",
